@@ -145,7 +145,7 @@ long sysconf_contract(int name)
 int sched_getaffinity_contract(pid_t pid, size_t sz, cpu_set_t * set)
   __CPROVER_requires(sz == sizeof(cpu_set_t) && __CPROVER_w_ok(set, sizeof(cpu_set_t)) && 0 <= g_c && g_c < CPU_SETSIZE)
   __CPROVER_assigns(__CPROVER_object_whole(set))
-  __CPROVER_ensures(1);
+  __CPROVER_ensures(((set->__bits[g_c / 64] >> (g_c % 64)) & 1) == (unsigned long)g_c_in);
 
 /* the parser as seen by its caller: anything its contract allows (proved in job c15.cpulist.entry) */
 int pcl_for_caller_contract(const char * var, int * a, int n)
@@ -268,6 +268,8 @@ void h_get_available_cpus(void) {
   __CPROVER_assert(!(g_pcl_ret > 0) || n_available_cpus <= g_pcl_ret, "get_available_cpus: uses at most the CPUs that were listed");
   __CPROVER_assert(!(g_pcl_ret <= 0 && g_ncpu > 0) || n_available_cpus <= g_ncpu, "get_available_cpus: malformed (-1) or empty list falls back to the CPU count");
   __CPROVER_assert(!(g_pcl_ret <= 0 && g_ncpu == -1) || n_available_cpus == 0, "get_available_cpus: no list and unknown CPU count: no binding");
+  __CPROVER_assert(!(g_pcl_ret <= 0 && g_ncpu > 0 && g_c < g_ncpu && g_c_in == 1) || n_available_cpus >= 1,
+                   "get_available_cpus: a malformed (-1) or empty list is treated as unset: the CPUs 0..ncpu-1 of the affinity mask are used");
   /* binding: any rank */
   int rank = nondet_int();
   __CPROVER_assume(rank >= 0);
